@@ -2,9 +2,11 @@
 # (1) debug-assertion build: every debug_assert! and the ub_checks inside unwrap_unchecked are compiled in
 build_relcheck
 run_leg relcheck "$VMON_RC" C15 --tier "$TIER" --seed "$SEED" --verif-dir "$VERIF" --out-dir "$OUT" --leg relcheck
+. "$VERIF/tools/san.sh"
+# (2) Miri (stacked borrows, no rayon): unchecked accessors, transmute, both decomposition routes, clone, round trip;
+#     two shards (two tiny inputs each, ~20 s) in the quick tier, eight in thorough
+if [ "$TIER" = quick ]; then miri_leg C15 norayon 2; fi
 if [ "$TIER" = thorough ]; then
-    . "$VERIF/tools/san.sh"
-    # (2) Miri (stacked borrows, no rayon): unchecked accessors, transmute, both decomposition routes
     miri_leg C15 norayon 8
     # (3) valgrind memcheck on the plain release binary
     valgrind_leg C15
